@@ -18,6 +18,7 @@ the theorems of `Props/C04.lean` are about.
 -/
 import Dawgs.Generated.C04Sites
 import Dawgs.Props.C04
+import Dawgs.Spec.C04
 namespace Dawgs.C04.Sites
 open Dawgs.Generated.C04Sites
 
@@ -404,6 +405,31 @@ theorem guard_calls_in_place :
        ("prepareCreateRelationshipMatch", "seen", "validateBoundIdentifiers"),
        ("projectionItemFromValue", "projectionItem.Alias.Symbol", "validateCypherSymbol ; \"projection alias\""),
        ("Enter", "parameter.Symbol", "validateCypherSymbol ; \"parameter\"")] := by decide +kernel
+
+/-! ## (4) option parameters of the entry points -/
+
+/-- parameters that are data, not options (name, type) -/
+def dataParameters : List (String × String) := [
+  ("ctx", "context.Context"), ("regularQuery", "*cypher.RegularQuery"), ("cypherQuery", "*cypher.RegularQuery"), ("query", "*cypher.RegularQuery"),
+  ("kindMapper", "pgsql.KindMapper"), ("parameters", "map[string]any"), ("graphID", "int32"), ("translation", "Result"),
+  ("statement", "pgsql.Statement"), ("expression", "pgsql.SyntaxNode"), ("node", "pgsql.SyntaxNode"), ("builder", "*OutputBuilder")]
+
+def optionCovered (o : String × String × String) : Bool :=
+  if o.2.2 == "bool" then Dawgs.C04.Spec.exercisedOptions.contains (o.1, o.2.1, ["false", "true"])
+  else dataParameters.contains (o.2.1, o.2.2)
+
+-- printed into the build log: the options the suite does not exercise under every value
+#eval entryOptions.filter (fun o => !optionCovered o)
+
+/-- every boolean option parameter / field of the entry points through which a query becomes SQL text (translate.FromCypher,
+Translate, Translated, the pgsql formatter's OutputBuilder, the Cypher emitter) is run by the suite under BOTH values for
+every case that reaches the entry point (`Spec.exercisedOptions`, which the `o` op compares with the harness's own table);
+every other parameter is one of the known data parameters. A new option (a bool, a mode string, a new With… method)
+turns this red until the suite exercises it. Seeded change C04-r4-2 manifested under stripLiterals = true only. -/
+theorem entry_options_exercised : entryOptions.filter (fun o => !optionCovered o) = [] := by decide +kernel
+
+theorem exercised_options_exist :
+    Dawgs.C04.Spec.exercisedOptions.all (fun e => entryOptions.contains (e.1, e.2.1, "bool")) = true := by decide +kernel
 
 /-! ## (3) the query builder's symbol guard, as regenerated rune classes -/
 
